@@ -261,6 +261,14 @@ func (ws *priorityWriteScheduler) OpenStream(streamID uint32, options OpenStream
 			panic(fmt.Sprintf("stream %d already opened", streamID))
 		}
 		curr.state = priorityNodeOpen
+		// The node is not idle any more: take it off the idle list, otherwise
+		// addClosedOrIdleNode evicts it later although the stream is open.
+		for i, n := range ws.idleNodes {
+			if n == curr {
+				ws.idleNodes = append(ws.idleNodes[:i:i], ws.idleNodes[i+1:]...)
+				break
+			}
+		}
 		return
 	}
 
